@@ -3,7 +3,7 @@
 
 use crossbeam_channel::{Receiver, Sender};
 use log::{debug, trace};
-use lsp_server::{Connection, ExtractError, Message, RequestId};
+use lsp_server::{Connection, ErrorCode, ExtractError, Message, RequestId};
 use lsp_types::{
     notification::{self, Notification, PublishDiagnostics},
     request::{self, Request},
@@ -119,7 +119,9 @@ impl<'a> LspServer<'a> {
                     }
                     self.handle_request(req);
                 }
-                lsp_server::Message::Response(_) => todo!(),
+                // The server never sends a request, so a response from the
+                // client answers nothing. Ignore it.
+                lsp_server::Message::Response(_) => {}
                 lsp_server::Message::Notification(notification) => {
                     self.handle_notification(&notification);
                 }
@@ -137,7 +139,7 @@ impl<'a> LspServer<'a> {
             }
             Err(req) => req,
         };
-        let _request = match Self::cast_request::<request::SemanticTokensFullRequest>(req) {
+        let req = match Self::cast_request::<request::SemanticTokensFullRequest>(req) {
             Ok(params) => {
                 let uri = params.text_document.uri;
                 let token_result = self.project.tokenize(&uri);
@@ -163,6 +165,13 @@ impl<'a> LspServer<'a> {
             }
             Err(req) => req,
         };
+
+        // Every request must be answered: there is no handler for this method.
+        self.send_error_response(
+            req_id,
+            ErrorCode::MethodNotFound,
+            format!("Method {} is not implemented", req.method),
+        );
         ""
     }
 
@@ -187,6 +196,12 @@ impl<'a> LspServer<'a> {
     {
         trace!("Response for method {}", R::METHOD);
         let response = lsp_server::Response::new_ok(request_id, params);
+        self.sender.send(Message::Response(response)).unwrap()
+    }
+
+    fn send_error_response(&self, request_id: RequestId, code: ErrorCode, message: String) {
+        trace!("Error response {:?} {}", code, message);
+        let response = lsp_server::Response::new_err(request_id, code as i32, message);
         self.sender.send(Message::Response(response)).unwrap()
     }
 
